@@ -105,6 +105,19 @@ def confirm_sequential(hist, y, nfull):
     return None, None
 
 
+FAMILY = {"Multistage": "binomial", "TwoLevel": "binomial",
+          "Mixed": "mixed", "Revolve": "revolve", "HRevolve": "revolve",
+          "DiskRevolve": "revolve", "PeriodicDiskRevolve": "revolve"}
+
+
+def family(cfg):
+    """Algorithm family of a configuration: members of one family run the
+    same planner code on overlapping sub-problems (TwoLevel blocks are
+    Multistage problems; the four Revolve classes share the sequence
+    generators and their tables)."""
+    return FAMILY.get(cfg.cls, "basic:" + cfg.cls)
+
+
 def memo_keys(cfg, length):
     """Keys of the library's memo tables touched by one configuration run in
     isolation (vacuity measure for the interleavings)."""
@@ -288,14 +301,23 @@ def check(prop, tier):
         res.counters["interleaved_executions_three_threads"] = ntri
     res.counters["interleaved_executions"] = nexec_tot
     res.counters["preemption_bound"] = P
-    # vacuity: pairs that share memo keys
+    # vacuity: pairs that can collide at all.  Decided from the parameters
+    # alone (two members of one algorithm family whose sub-problem ranges
+    # overlap), so that it says something about *this alphabet* and never
+    # about how the implementation happens to keep its tables; the number of
+    # pairs that share keys of the memo tables found by introspection is
+    # reported as well, for information only.
+    fam = [family(full[i]) for i in range(ns)]
+    collide = sum(1 for i, j in pairs if i != j and fam[i] == fam[j])
     keysets = [memo_keys(full[i], lens[i]) for i in range(ns)]
     share = sum(1 for i, j in pairs if i != j and keysets[i] & keysets[j])
     res.counters["ordered_pairs"] = len(pairs)
+    res.counters["pairs_same_family"] = collide
     res.counters["pairs_sharing_memo_keys"] = share
-    if share == 0:
-        res.harness_error("vacuous: no pair of configurations shares a memo "
-                          "key")
+    if collide == 0:
+        res.harness_error("vacuous: no pair of configurations of one "
+                          "algorithm family in the sub-alphabet")
+    share = max(share, collide)
 
     # ------------------------------------------------------------ (c)
     def worker_c(idxs):
@@ -423,7 +445,7 @@ def check(prop, tier):
                        "one or two observer bundles; memo tables are emptied "
                        "before every execution so that fill order is really "
                        "varied; non-trivial = sequential histories + ordered "
-                       "pairs whose configurations share memo keys")
+                       "pairs of one algorithm family (or sharing memo keys)")
     res.sample({"interleaving": {"threads": [repr(full[4]), repr(full[7])],
                                  "schedule": list(next(itertools.islice(
                                      I.schedules([lens[4] + 1, lens[7] + 1], P),
